@@ -348,18 +348,8 @@ def run(ctx, report):
                          % (q, argt, how), where(mod_, n),
                          witness="asm('mov ax, 0x12345') -> 66 b8 45 23" if 'asm_all_candidate' in q else ("asm_att('movb $256, %al') -> b0 00" if 'numpy' in q else None))
     report.analysed['narrowing_sites'] = n_sites
-    # pack sites use the format of the checked size
-    aac = arch.method('x86_mn', 'asm_all_candidate')
-    packs = [n for n in walk_no_nested(aac) if isinstance(n, ast.Call) and u(n.func) == 'struct.pack' and n.args and 'dict_size' in u(n.args[0])]
-    for pk in packs:
-        inst = 'pack:%s' % norm(pk)[:90]
-        fmt = u(pk.args[0])
-        val = u(pk.args[1]) if len(pk.args) > 1 else ''
-        if fmt == 'x86_afs.dict_size[c[x86_afs.size]]' and 'c[x86_afs.imm]' in val and '&' not in val:
-            R1.ok(inst, sample='byte emission packs c[imm] with the format of its checked size c[size]')
-        else:
-            R1.violation(inst, 'pack:%s' % fmt, 'byte emission packs with format %s the value %s: the width emitted is not the width that was range-checked' % (fmt, val),
-                         where(arch, pk), witness="asm('mov ax, 0x12345') -> 66 b8 45 23")
+    # byte emission: the loop of asm_all_candidate that turns a candidate (prefix, opcode bytes, displacement, immediates) into bytes is evaluated from its source
+    emission_rule(R1, X)
 
     R3 = report.rule('C02.D3', 'one operand-size mode drives the 0x66 prefix, the immediate width and the emitted candidate', floor=4)
     ac = arch.method('x86_mn', 'asm_candidates')
@@ -900,6 +890,91 @@ def _conds(node, fn):
         child, p = p, parent(p)
     return out
 
+
+
+def emission_rule(R1, X):
+    """The emission loop of x86_mn.asm_all_candidate (`for .. in candidate_out:` up to the return) is evaluated from its source on candidates whose displacement and
+    immediates have every combination of widths: the bytes are prefix + opcode + each value in little-endian order with exactly the width and signedness of its checked
+    size token, back to back (no padding, no reordering), and the recorded symbol offsets are the positions of the values."""
+    import struct as _struct
+    from ..consteval import Evaluator, Obj, Native, NotConst, PyRaise
+    arch, E, afs = X.arch, X.env, X.afs
+    aac = arch.method('x86_mn', 'asm_all_candidate')
+    loops = [n for n in aac.body if isinstance(n, ast.For) and u(n.iter) == 'candidate_out']
+    if len(loops) != 1:
+        raise AnalysisError('asm_all_candidate: the emission loop over candidate_out was not found')
+    i0 = aac.body.index(loops[0])
+    j0 = i0
+    while j0 > 0 and isinstance(aac.body[j0 - 1], ast.Assign) and isinstance(aac.body[j0 - 1].value, (ast.List, ast.Dict)):
+        j0 -= 1
+    rets = [k for k in range(i0 + 1, len(aac.body)) if isinstance(aac.body[k], ast.Return)]
+    if not rets:
+        raise AnalysisError('asm_all_candidate: no return after the emission loop')
+    frag = aac.body[j0:rets[0] + 1]
+    st = Obj('struct')
+    st.pack = Native(lambda f, *v: _struct.pack(f, *[int(x) for x in v]))
+    st.calcsize = Native(_struct.calcsize)
+
+    def mk_struct(fmt):
+        o = Obj('Struct')
+        o.pack = Native(lambda *v: _struct.Struct(fmt).pack(*[int(x) for x in v]))
+        o.size = _struct.Struct(fmt).size
+        o.format = fmt
+        return o
+    st.Struct = Native(mk_struct)
+    log = Obj('log')
+    for lv in ('info', 'debug', 'warning', 'error'):
+        setattr(log, lv, Native(lambda *a, **k: None))
+    W = {'u08': (1, False), 's08': (1, True), 'u16': (2, False), 's16': (2, True), 'u32': (4, False), 's32': (4, True)}
+    tok = dict((k, E[k]) for k in W)
+
+    def val(kind, v):
+        return {afs.size: tok[kind], afs.imm: v}
+    cases = []
+    for dk, dv in ((None, None), ('s08', -8), ('u08', 0x88), ('u32', 0x11223344), ('s32', -2), ('u16', 0x1234)):
+        for imms in ((), (('u08', 0x7F),), (('s08', -1),), (('u16', 0xBEEF),), (('u32', 0x12345678),), (('s32', -0x1000),), (('u16', 0x20), ('u08', 1)), (('u32', 0x1000), ('u16', 0x23))):
+            cases.append((dk, dv, imms))
+    n_ok, bad = 0, None
+    for pfx, mode_ in (([], afs.u32), ([0x66], afs.u16), ([0x66], 'u16'), ([], 'u32')):
+        for dk, dv, imms in cases:
+            opc = [0xC7, 0x40]
+            cand = (None, None, (list(opc), val(dk, dv) if dk else {}, [val(k_, v_) for k_, v_ in imms]), mode_)
+            scope = dict((k, v) for k, v in E.items() if isinstance(v, (str, int, bool, list, tuple, dict)) or v is None)
+            scope.update({'x86_afs': afs, 'struct': st, 'log': log, 'hexdump': Native(lambda b: ''), 'candidate_out': [cand], 'prefix': list(pfx)})
+            for fname_, fnode_ in arch.funcs.items():
+                scope.setdefault(fname_, fnode_)
+            loc = {'candidate_out': [cand], 'prefix': list(pfx), 'self': Obj('self')}
+            try:
+                Evaluator(scope).exec_stmts(frag, loc)
+                raise AnalysisError('asm_all_candidate: the emission fragment does not return')
+            except PyRaise as e:
+                got = 'raises %s' % e.exc_name
+            except NotConst as e:
+                raise AnalysisError('asm_all_candidate: the emission loop is outside the evaluable subset: %s' % e)
+            except Exception as e:
+                if type(e).__name__ == '_Return':
+                    got = e.v
+                else:
+                    raise
+            want_b = bytes(pfx + opc)
+            offs = []
+            for k_, v_ in ([(dk, dv)] if dk else []) + list(imms):
+                offs.append(len(want_b))
+                n_, sg_ = W[k_]
+                want_b += int(v_).to_bytes(n_, 'little', signed=sg_)
+            desc = 'prefix %s, opcode c7 40, displacement %s, immediates %s' % (pfx, '%s:%#x' % (dk, dv) if dk else 'none', ', '.join('%s:%#x' % i_ for i_ in imms) or 'none')
+            ok = isinstance(got, list) and len(got) == 1 and isinstance(got[0], tuple) and bytes(got[0][0]) == want_b and list(got[0][1]) == offs
+            if ok:
+                n_ok += 1
+            elif bad is None:
+                shown = got if isinstance(got, str) else ('%s, offsets %s' % (bytes(got[0][0]).hex(), list(got[0][1])) if isinstance(got, list) and got and isinstance(got[0], tuple) else repr(got)[:80])
+                bad = (desc, shown, '%s, offsets %s' % (want_b.hex(), offs))
+    inst = 'emission: asm_all_candidate'
+    if bad:
+        R1.violation(inst, 'emission:%s' % ('raises' if bad[1].startswith('raises') else 'bytes'), 'byte emission of a candidate with %s gives %s; the encoding is %s (each value little-endian in the '
+                     'width of its checked size, back to back)' % bad, where(arch, loops[0]), witness="asm('mov DWORD PTR [eax+8], 0x12345678')")
+    else:
+        R1.ok(inst, sample='the emission loop evaluated on %d candidates (6 displacement kinds x 8 immediate lists x 2 operand-size modes): bytes and symbol offsets are exact' % n_ok, nontrivial=True)
 
 MUTANTS = [
     ('mem16-widens-registers', 'miasmx/arch/ia32_arch.py', '                    if is_address(a) and a[x86_afs.size] == u16:\n                        a[x86_afs.size] = u32\n                        a[x86_afs.ad] = u32\n', '                    if a[x86_afs.size] == u16:\n                        a[x86_afs.size] = u32\n                        if a[x86_afs.ad]:\n                            a[x86_afs.ad] = u32\n', 'C02.D14'),
